@@ -231,7 +231,7 @@ let () =
                   (match diff_build N0 p1 b with
                    | BOverread -> raise (Case_crashed "rebuild-overread")
                    | BRet (r2, d2) -> Printf.printf "rebuild %s %d\n" (string_of_z r2) (List.length d2));
-                  (match apply hWLOC_TOPOLOGY_DIFF_APPLY_REVERSE d p1 with
+                  (match apply flag_reverse d p1 with
                    | ACrash -> raise (Case_crashed "unapply")
                    | ARet (r3, p2) -> Printf.printf "unapply %s\n" (string_of_z r3); print_state "P2" p2)
               end)
